@@ -100,6 +100,8 @@ def check(ctx):
     for _ in range(40 if ctx.quick else 600):
         vs = gen.random_vars(rng, rng.randrange(1, 6))
         progs.setdefault(gen.compile_layout(vs, rng), "idioms")
+    for c in gen.string_shape_programs(rng, 40 if ctx.quick else 600):
+        progs.setdefault(c, "string-shaped-slot")
     for c in gen.recursive_type_programs(rng, 60 if ctx.quick else 1000):
         progs.setdefault(c, "recursive-types")
     for c in gen.loop_programs(rng, bw, 30 if ctx.quick else 400):
